@@ -1,24 +1,22 @@
 //! C19 probe (not part of the check): behaviour of the REAL macros on attribute lists outside `Valid`.
 //! Build in a copy of the harness crate: `cargo build --release --offline --bin attrs_probe`.
 //!
-//! 1. An invalid value that only splices `compile_error!` tokens is silently dropped when the same
-//!    attribute is written again later: all three functions below compile and run (prints `2 3 4`).
-//! 2. `#[cache(max_memory = "17179869184GB")]` (= 2^64 bytes): with `overflow-checks = true` for the macro
-//!    crate (dev profile, or this harness' release profile) compilation fails with
-//!    "custom attribute panicked: attempt to multiply with overflow"; with
-//!    `[profile.release.build-override] overflow-checks = false` (cargo's default for release builds) it
-//!    compiles and the cache is built with `Some(0usize)`.  Uncomment `w` to try.
+//! History.  Before commits 82aef8c / 1b1b026 of /repo:
+//! 1. (F9) an invalid value that only spliced `compile_error!` tokens was silently dropped when the same
+//!    attribute was written again later: `f` and `g` below compiled and ran (`2 3`).  Now they are rejected
+//!    ("Failed to parse attributes: compile_error ! (...)"); uncomment them to see the compile error.
+//! 2. (F10) `#[cache(max_memory = "17179869184GB")]` (= 2^64 bytes) panicked the macro with overflow checks
+//!    and compiled to `Some(0usize)` with `[profile.release.build-override] overflow-checks = false`
+//!    (cargo's default for release builds).  Now it is `compile_error!("max_memory is too large")` in every
+//!    build; uncomment `w` to see it.
+//! `h` (tolerated forms, still accepted) prints `4`.
 use cachelito::cache;
 
-#[cache(limit = "not a number", limit = 2)]
-fn f(x: u32) -> u32 {
-    x + 1
-}
+// #[cache(limit = "not a number", limit = 2)]
+// fn f(x: u32) -> u32 { x + 1 }
 
-#[cache(ttl = nonsense(), max_memory = true, ttl = 5, max_memory = "1KB")]
-fn g(x: u32) -> u32 {
-    x + 2
-}
+// #[cache(ttl = nonsense(), max_memory = true, ttl = 5, max_memory = "1KB")]
+// fn g(x: u32) -> u32 { x + 2 }
 
 // tolerated forms: leading `+`, repeated unit, non-string name (ignored), integer weight 0
 #[cache(max_memory = "+1GBGB", name = 5, frequency_weight = 0, policy = "tlru")]
@@ -30,5 +28,5 @@ fn h(x: u32) -> u32 {
 // fn w(x: u32) -> u32 { x }
 
 fn main() {
-    println!("{} {} {}", f(1), g(1), h(1));
+    println!("{}", h(1));
 }
